@@ -367,6 +367,7 @@ inductive Op where
   | setRule (r : Id) (rule : Option G)   -- reaction.gene_reaction_rule = "…" (the text parsed by `GPRM.fromString`), outside a context
   | removeRxns (rs : List Id) (orphans : Bool)   -- remove_reactions([…]): identifiers that are not in the model are skipped with a warning
   | imul (r : Id) (k : Rat)
+  | observe                          -- calls that only look: `slim_optimize()`, `reaction.copy()`, `a + b` / `a - b` on reactions of the model
   | enter
   | exit
 
@@ -578,6 +579,7 @@ def apply (y : Sys) : Op → Sys × Option Err
     if !y.s.hasR r then (y, some .key)
     else if k = 0 then (y, some .type)                 -- outside the modelled fragment (never sent by the harness)
     else imul y r k
+  | .observe => (y, none)
   | .enter => (enter y, none)
   | .exit => exit y
 
